@@ -3,7 +3,7 @@
    the segment sizes used by MultiHash.v are regenerated from SegmentedArray.h on every run (Gen_Segments.v),
    and all models are run against the real momo::DataTable / DataIndexes on every run. *)
 From Coq Require Import List ZArith Permutation.
-From C07 Require Import TableSpec TableProofs MultiHash MultiHashProofs IndexModel IndexProofs AtomicProofs.
+From C07 Require Import TableSpec TableProofs NumModel MultiHash MultiHashProofs IndexModel IndexProofs AtomicProofs.
 Import ListNotations.
 
 (* For EVERY history of table operations starting from the empty table (adds, inserts, whole-row and
@@ -42,6 +42,20 @@ Theorem C07_accepted_means_no_collision :
   forall cols n r', In cols (uniq t) -> nth_error (rows t) n = Some r' -> skip <> Some n -> proj cols r' <> proj cols r.
 Proof. exact accepted_means_no_collision. Qed.
 Print Assumptions C07_accepted_means_no_collision.
+
+(* keepRowNumber: for EVERY history, after every operation the number stored in each row (pvSetNumber /
+   pvSetNumbers(beginNumber) exactly where DataTable.h calls them) is the row's position in the table. *)
+Theorem C07_row_numbers_are_positions :
+  forall ops : list op,
+    snd (nrun (empty_table, []) ops) = seq 0 (length (rows (fst (nrun (empty_table, []) ops)))).
+Proof. exact row_numbers_are_positions. Qed.
+Print Assumptions C07_row_numbers_are_positions.
+
+(* ... and the numbered table is the L0 table (same rows, same results) *)
+Theorem C07_numbered_table_refines_spec :
+  forall t nums o, fst (fst (nstep (t, nums) o)) = fst (step t o) /\ snd (nstep (t, nums) o) = snd (step t o).
+Proof. exact nstep_refines. Qed.
+Print Assumptions C07_numbered_table_refines_spec.
 
 (* DataIndexes::UpdateRaw(raw, column, item) on a unique hash, the code as it is now (UniqueHash::PrepareRemove
    skips the entry this update has just added): for EVERY place the new entry may take in the hash table (ord),
